@@ -25,6 +25,7 @@ def absPub : Pub → Mb.PStat
 def absRcv : Rcv → Mb.RStat
   | .absent => .absent
   | .refused => .refused
+  | .refusedCtx => .refused   -- the specification knows one refusal only (closed mailbox): a context refusal is not a step of it
   | .have k g x | .waiting k g x => .bound k g x .none
   | .gotVal k g x v => .bound k g x (.val v)
   | .gotCtx k g x => .bound k g x .ctxErr
